@@ -2,6 +2,7 @@
 From Coq Require Import String Permutation.
 From Verif Require Import Base.Str Base.Lines Base.Outcome Regex.Re Regex.Equiv Model.Patterns Model.ParseLine Model.Passes Model.CmdLine Model.Parser Model.Assembler Model.Generate.
 From Verif Require Import Proofs.EquivSound Proofs.PassesProofs Proofs.CmdLineProofs Proofs.ParserProofs Proofs.AssemblerProofs.
+From Verif Require Tie.Pin_lits_regex_operators_assembler_removeUnescapedMatches.
 From Verif Require Tie.Pin_lits_regex_operators_assembler_Operator_escapeDoublequotes Tie.Pin_lits_regex_operators_assembler_Operator_useHexBackslashes Tie.Pin_lits_regex_operators_assembler_Operator_useHexEscapes Tie.Pin_lits_regex_operators_assembler_Operator_includeVerticalTabInSpaceClass Tie.Pin_lits_regex_operators_assembler_Operator_dontUseFlagsForMetaCharacters Tie.Pin_lits_regex_operators_assembler_Operator_removeGroup Tie.Pin_lits_regex_operators_assembler_Operator_removeOutermostNonCapturingGroup Tie.Pin_lits_regex_operators_assembler_Operator_findGroupBodyEnd Tie.Pin_lits_utils_utils_IsEscaped Tie.Pin_lits_regex_utils_IsEscaped Tie.Pin_lits_regex_operators_assembler_Operator_startPreprocessor.
 Open Scope N_scope.
 
@@ -30,9 +31,10 @@ Proof. exact find_group_body_end_bounds. Qed.
 Print Assumptions C19_group_scan_in_bounds.
 
 (* the case the property names: an ESCAPED parenthesis followed by ?i: is ordinary text
-   (a genuine defect found by this check - index out of range - repaired in /repo, fix: 818337f) *)
+   (a genuine defect found by this check - index out of range - repaired in /repo, fix: 818337f and eb0e1c8 for the (?i) form) *)
 Theorem C19_escaped_paren_is_text :
-  dont_use_flags $"\(?i:x" = Ok $"\(?i:x" /\ dont_use_flags $"a(?i:x|y)b\(?i:z" = Ok $"a(?:x|y)b\(?i:z".
+  dont_use_flags $"\(?i:x" = Ok $"\(?i:x" /\ dont_use_flags $"a(?i:x|y)b\(?i:z" = Ok $"a(?:x|y)b\(?i:z" /\
+  dont_use_flags $"(\(?i)" = Ok $"(\(?i)" /\ dont_use_flags $"a(?s)b" = Ok $"ab".
 Proof. exact escaped_paren_is_text. Qed.
 Print Assumptions C19_escaped_paren_is_text.
 
